@@ -64,6 +64,8 @@ def oracle(case, obs):
     for e in tr:
         if e[0] == 'ctl' and e[1][0] in ('pause', 'play') and e[2][0] == 'raised':
             return {'signature': '%s_raised' % e[1][0], 'kind': str(e[2][1]), 'context': context(case)}
+    if life.pause_carried_out_after_play(tr) is not None:
+        return {'signature': 'pause_carried_out_although_withdrawn', 'kind': 'D29', 'context': context(case)}
     for e in tr:
         if e[0] == 'step' and e[4]:
             return {'signature': 'step_started_while_paused', 'kind': e[1], 'context': context(case)}
